@@ -193,7 +193,7 @@ impl Prop for Collisions {
         "C14/collisions".into()
     }
     fn rule(&self) -> String {
-        "an accepted program plus one injected collision: a second type / enum / extern type with the name of an existing item of the same module (before or after it), or a user type named <T>Vftable next to a T that declares a vftable block. Oracle: the build is an error (never Ok with one of the two definitions silently missing). Every case is non-trivial".into()
+        "an accepted program plus one injected collision: a second type / enum / extern type with the name of an existing item of the same module (before or after it), a user type named <T>Vftable next to a T that declares a vftable block, or a second extern value of an existing name. Oracle: the build is an error (never Ok with one of the two definitions silently missing). Every case is non-trivial".into()
     }
     fn gen(&self, t: &mut Tape) -> CollisionCase {
         let w = if t.chance(1, 2) { 8 } else { 4 };
@@ -219,10 +219,28 @@ impl Prop for Collisions {
         }
         let (mi, name, has_vft) = victims[t.below(victims.len() as u64) as usize].clone();
         let what;
-        let kind = t.below(if has_vft { 5 } else { 3 });
+        let mut kind = t.below(if has_vft { 5 } else { 3 });
         let front = t.chance(1, 2);
+        // one case in six: a second extern value of an existing name instead (two accessors get_<name>)
+        let with_vals: Vec<usize> = (0..prog.mods.len()).filter(|&i| !prog.mods[i].ext_vals.is_empty()).collect();
+        if !with_vals.is_empty() && t.chance(1, 6) {
+            kind = 99;
+        }
         let m = &mut prog.mods[mi];
         match kind {
+            99 => {
+                let vm = with_vals[t.below(with_vals.len() as u64) as usize];
+                let k = t.below(prog.mods[vm].ext_vals.len() as u64) as usize;
+                let mut ev = prog.mods[vm].ext_vals[k].clone();
+                what = format!("second extern value named {}", ev.name);
+                ev.addr = Some(Num::d(0x7000));
+                ev.ty = Ty::n("u8");
+                if front {
+                    prog.mods[vm].ext_vals.insert(0, ev)
+                } else {
+                    prog.mods[vm].ext_vals.push(ev)
+                }
+            }
             0 => {
                 what = format!("second type named {name}");
                 let it = Item::Type(small_type(&name, 5 + t.below(9)));
@@ -235,11 +253,13 @@ impl Prop for Collisions {
             1 => {
                 what = format!("enum named like {name}");
                 let it = Item::Enum(EnumDef {
+                    sty: 0,
                     vis: true,
                     name: name.clone(),
                     doc: vec![],
                     base: "u8".into(),
                     variants: vec![Variant {
+                        sty: 0,
                         name: "A".into(),
                         value: None,
                         default: false,
@@ -290,12 +310,112 @@ impl Prop for Collisions {
     }
 }
 
+// ------------------------------------------------------------ dotted paths
+
+/// Directory and file names with dots in them.
+pub struct DottedPaths;
+
+const DOT_DIRS: &[&str] = &["game", "game.v2", "game.v3", "v1.2", "a.b.c", "core", ".hidden"];
+const DOT_STEMS: &[&str] = &["actor", "actor.v2", "a", "a.v2", "a.b.c", "types.gen", "m.pyxis"];
+
+impl Prop for DottedPaths {
+    type Case = Case;
+    crate::prog_shrink!();
+    fn name(&self) -> String {
+        "C14/dotted-paths".into()
+    }
+    fn rule(&self) -> String {
+        "2-6 modules whose directory names and file stems are drawn from small pools with dots in them (game, game.v2, game.v3, v1.2, a.b.c, .hidden / actor, actor.v2, a, a.v2, types.gen, m.pyxis), so that siblings share a stem up to the first or last dot; each module holds self-contained items (packed byte structs, enums, extern values of scalar type: nothing whose emitted code names the module path), built through pyxis::build on disk. Oracle as in C14/emission: the output files are exactly {<input path minus .pyxis>.rs} and each holds exactly its module's items. Non-trivial: two modules whose paths differ only after a dot".into()
+    }
+    fn gen(&self, t: &mut Tape) -> Case {
+        let w = if t.chance(1, 2) { 8 } else { 4 };
+        let n = 2 + t.below(5) as usize;
+        let mut prog = Prog::default();
+        let mut k = 0u64;
+        while prog.mods.len() < n {
+            let depth = t.below(3) as usize;
+            let mut path: Vec<String> = (0..depth).map(|_| t.pick(DOT_DIRS).to_string()).collect();
+            path.push(t.pick(DOT_STEMS).to_string());
+            if prog.mods.iter().any(|m: &Mod| m.path == path) {
+                // simplest tape: count up instead of looping forever
+                path = vec![format!("extra{}", prog.mods.len())];
+            }
+            let mut m = Mod {
+                path,
+                ..Default::default()
+            };
+            let items = t.below(4);
+            for _ in 0..items {
+                k += 1;
+                match t.below(3) {
+                    0 => m.items.push(Item::Type(small_type(&format!("T{k}"), 1 + t.below(9)))),
+                    1 => m.items.push(Item::Enum(EnumDef {
+                        sty: 0,
+                        vis: true,
+                        name: format!("E{k}"),
+                        doc: vec![],
+                        base: "u8".into(),
+                        variants: vec![Variant {
+                            sty: 0,
+                            name: "A".into(),
+                            value: None,
+                            default: false,
+                            doc: vec![],
+                        }],
+                        singleton: None,
+                        copyable: false,
+                        cloneable: false,
+                        defaultable: false,
+                    })),
+                    _ => m.ext_vals.push(ExtVal {
+                        sty: 0,
+                        vis: true,
+                        name: format!("g{k}"),
+                        ty: Ty::n("u32"),
+                        addr: Some(Num::d(0x1000 + 16 * k as i128)),
+                        doc: vec![],
+                    }),
+                }
+            }
+            prog.mods.push(m);
+        }
+        Case { prog, w }
+    }
+    fn judge(&self, c: &Case) -> Outcome {
+        let res = build_via_lib(&print_prog(&c.prog), c.w as usize);
+        // two paths that are equal once everything after some dot of a segment is dropped
+        let stem = |p: &Vec<String>| -> Vec<String> { p.iter().map(|s| s.split('.').next().unwrap_or("").to_string()).collect() };
+        let dotted = c.prog.mods.iter().any(|m| m.path.iter().any(|s| s.contains('.')));
+        let siblings = c.prog.mods.iter().enumerate().any(|(i, a)| c.prog.mods.iter().skip(i + 1).any(|b| stem(&a.path) == stem(&b.path)));
+        match res {
+            Res::Panic(p) => Outcome::fail("panic", p),
+            Res::Err(e) => Outcome::discard(&format!("rejected: {}", e.chars().filter(|c| !c.is_ascii_digit()).take(40).collect::<String>())),
+            Res::Ok(b) => match check_emission(&c.prog, &b.files) {
+                Ok(()) => {
+                    let mut o = Outcome::pass(siblings);
+                    for (k, v) in [("dotted-segment", dotted), ("siblings-up-to-a-dot", siblings), ("dotted-directory", c.prog.mods.iter().any(|m| m.path[..m.path.len() - 1].iter().any(|s| s.contains('.'))))] {
+                        if v {
+                            o = o.class(k);
+                        }
+                    }
+                    o
+                }
+                Err((k, d)) => Outcome::fail(&k, d),
+            },
+        }
+    }
+    fn show(&self, c: &Case) -> Value {
+        json!({"width": c.w, "pyxis": prog_text(&c.prog)})
+    }
+}
+
 pub fn props() -> Vec<Box<dyn DynProp>> {
-    vec![Box::new(Emission), Box::new(Collisions)]
+    vec![Box::new(Emission), Box::new(Collisions), Box::new(DottedPaths)]
 }
 
 pub fn run(ctx: &mut Ctx) {
     let q = ctx.quick();
     ctx.run(&Emission, &Params::new(if q { 6_000 } else { 200_000 }, 100, 2500).shrink(300));
     ctx.run(&Collisions, &Params::new(if q { 3_000 } else { 100_000 }, 100, 1500).shrink(300));
+    ctx.run(&DottedPaths, &Params::new(if q { 3_000 } else { 100_000 }, 40, 400).shrink(200));
 }
